@@ -165,6 +165,8 @@ def run_one(args) -> Dict[str, Any]:
     files = {ed['file'] for ed in edits}
     if entry['kind'] == 'break':
       exp = entry.get('expect')
+      if isinstance(exp, dict):
+        exp = exp.get(prop)
       hits = [o for o in viol if (not exp or exp in o.rule)]
       located = [o for o in hits if o.file in files or entry.get('anywhere')]
       if located:
